@@ -2,6 +2,7 @@
    1 / (number of such orders).  Statements only; proofs live in Proofs/Perm*.v. *)
 From PV Require Import Model.Perm Proofs.PermProofs Proofs.PermSound Proofs.PermComplete Proofs.PermNoDup Proofs.PermDensity.
 From Coq Require Import Permutation.
+From PV Require Import Model.Grammar Proofs.GrammarTable Proofs.GrammarPG Proofs.GrammarForests.
 
 (* the sampler's law is the uniform law on the enumerated list of orders, for every tree / forest *)
 Theorem C09_sampler_uniform_on_orders : forall (F : forest) (f : list nat -> Qc),
@@ -54,6 +55,15 @@ Print Assumptions C09_order_density_sums_to_one.
 Theorem C09_density_is_inverse_count : forall F, fcount F = qn (length (forders F)).
 Proof. exact fcount_is_number_of_orders. Qed.
 Print Assumptions C09_density_is_inverse_count.
+
+(* the same density on the label-free forests of the assembled particle-Gibbs theorem (Proofs/GrammarPG.v): gcden sg t is
+   1 / #(orders compatible with the relation table t) when sg is compatible and 0 otherwise; it sums to one over all n!
+   orders for EVERY forest over n points (every forest has a compatible order), which is premise (iii) in the form the
+   assembled theorem uses.  [gcden] is compared with exp(log_pdf) of the implementation by the check. *)
+Theorem C09_assembly_order_density_sums_to_one : forall (n : nat) (on : bool) (t : list (list bool)),
+  In t (forests n on) -> sumq (map (fun sg => gcden n sg t) (gorders n)) = 1.
+Proof. exact g_cden_sum. Qed.
+Print Assumptions C09_assembly_order_density_sums_to_one.
 
 (* the pinned commit's count is right exactly when there are at most one outlier *)
 Theorem C09_pinned_count_ok_iff : forall F,
